@@ -32,6 +32,7 @@ SIG = {
     "cvrptw_far": "cvrptw: generator emits a customer that cannot be reached or left in time (2*dist > max_time) without tripping its feasibility assert",
     "mtvrp": "mtvrp: generated row violates the environment's solvability condition",
     "mtvrp_feat": "mtvrp: features of the generated row are not those of the requested preset",
+    "mtvrp_slow": "mtvrp/TW,speed<1: generator emits a time-window customer that cannot be served and left in time at the requested speed (no feasibility assert)",
     "op": "op: prize outside 0.01..1.00 / max_length not from the table",
     "op_crash": "op: OPGenerator(prize_type='const'|'unif') raises AttributeError (self.device is never set)",
     "svrp": "svrp: technicians not sorted or last technician cannot serve every customer",
@@ -118,7 +119,12 @@ def prop_handler(run, sigkey):
     def h(meta, code):
         r = dict(meta)
         r["code"] = code
-        run.ctx.failure(SIG[sigkey], r, tag=sigkey)
+        # a row on which the mechanism of a recorded finding was recognised on the implementation's own output (see the site
+        # that sets it) fails under that finding's signature; every other failing row keeps the generic one
+        sig = r.pop("sig_if_fails", None) or SIG[sigkey]
+        r.pop("sig", None)
+        r["signature"] = sig
+        run.ctx.failure(sig, r, tag=sigkey)
     return h
 
 
@@ -640,15 +646,37 @@ def mtvrp(run):
     pcases, pmetas = [], []
     sizes = [5, 10, 20, 50] if run.thorough else [6, 20]
     B = 24 if run.thorough else 4
-    plan = [(name, n, B) for name in VARIANT_GENERATION_PRESETS for n in sizes if not (n == 50 and name not in ("all", "ovrpbltw", "vrptw"))]
+    plan = [(name, n, B, {}) for name in VARIANT_GENERATION_PRESETS for n in sizes if not (n == 50 and name not in ("all", "ovrpbltw", "vrptw"))]
     if run.thorough:      # bulk: 10^4 small rows over all presets
-        plan += [(name, 5, 53 * bulk(10)) for name in VARIANT_GENERATION_PRESETS]
-    for (name, n, B) in plan:
+        plan += [(name, 5, 53 * bulk(10), {}) for name in VARIANT_GENERATION_PRESETS]
+    # non-default but legal parameterisations: a distance limit that some draws cannot meet (the generator must refuse those
+    # draws -- its documented assert -- and every instance it does emit must still be solvable), other speeds and capacities
+    lpresets = [nm for nm in VARIANT_GENERATION_PRESETS if "l" in nm.replace("all", "").replace("single_feat", "")] or ["all"]
+    for rep in range(12 if run.thorough else 4):
+        for nm in lpresets:
+            plan += [(nm, 10, 16, {"distance_limit": 2.4}), (nm, 6, 4, {"distance_limit": 2.0}), (nm, 6, 4, {"distance_limit": 2.75})]
+    plan += [(nm, 6, 4, kw) for nm in ("all", "vrptw", "ovrpbltw") for kw in ({"speed": 2.0}, {"speed": 0.5}, {"capacity": 15.0}, {"max_time": 6.0})]
+    # fixed draw exhibiting the recorded slow-speed finding on every run (MTVRP's generate_locations ignores loc_sampler, so the
+    # instance is pinned by its torch seed): rows 6, 8, 32, 37 have a customer whose round trip at speed 0.5 exceeds max_time
+    plan += [("vrptw", 6, 64, {"speed": 0.5, "_seed": 3})]
+    for (name, n, B, kw) in plan:
         if True:
             seed = run.seed()
-            g = MTVRPGenerator(num_loc=n, variant_preset=name)
-            td = g(B)
-            base = {"unit": "routing", "gen": "mtvrp", "kind": "generated", "kwargs": {"num_loc": n, "variant_preset": name}, "torch_seed": seed, "batch": B}
+            kw = dict(kw)
+            if "_seed" in kw:
+                seed = kw.pop("_seed")
+                torch.manual_seed(seed)
+            g = MTVRPGenerator(num_loc=n, variant_preset=name, **kw)
+            try:
+                td = g(B)
+            except AssertionError as e:
+                if "distance_limit" in kw and "Distance limit too low" in str(e):
+                    run.ctx.count("mtvrp_generator_refused_draw(distance limit)")
+                    continue
+                raise
+            base = {"unit": "routing", "gen": "mtvrp", "kind": "generated", "kwargs": dict({"num_loc": n, "variant_preset": name}, **kw), "torch_seed": seed, "batch": B}
+            if kw:
+                run.ctx.count("mtvrp_generated_batches_nondefault_%s" % "_".join(sorted(kw)))
             exp_shapes = {"locs": (B, n + 1, 2), "demand_backhaul": (B, n + 1), "demand_linehaul": (B, n + 1), "distance_limit": (B, 1),
                           "time_windows": (B, n + 1, 2), "service_time": (B, n + 1), "vehicle_capacity": (B, 1), "capacity_original": (B, 1),
                           "open_route": (B, 1), "speed": (B, 1)}
@@ -666,6 +694,21 @@ def mtvrp(run):
                 pcases.append("(%s, %s, [%s], %s)" % (cz(zs(float(td["vehicle_capacity"][b, 0]))), q(td["speed"][b, 0]),
                                                       "; ".join(q(x) for x in d[b]), row))
                 pmetas.append(dict(base, row=b))
+                sp = float(kw.get("speed", 1.0))
+                if sp < 1.0:
+                    # recorded finding: generate_time_windows never checks that a customer can be reached before its window
+                    # closes and left in time to be back by max_time when travel takes d / speed; recognised on the emitted row
+                    Tend = float(td["time_windows"][b, 0, 1])
+                    far = [j + 1 for j in range(n) if bool(torch.isfinite(td["time_windows"][b, j + 1, 1])) and
+                           (float(d[b, j]) / sp > float(td["time_windows"][b, j + 1, 1]) + 1e-4 or
+                            (not bool(td["open_route"][b, 0]) and
+                             max(float(d[b, j]) / sp, float(td["time_windows"][b, j + 1, 0])) + float(td["service_time"][b, j + 1])
+                             + float(d[b, j]) / sp > Tend + 1e-4))]
+                    if far:
+                        pmetas[-1].update(sig_if_fails=SIG["mtvrp_slow"], customers_out_of_reach=far, speed=sp,
+                                          dist_to_depot=[float(x) for x in d[b]],
+                                          time_windows=[[float(x) for x in w] for w in td["time_windows"][b]],
+                                          service_time=[float(x) for x in td["service_time"][b]])
                 if name not in ("all", "single_feat", "single_feat_otw"):
                     fl = _flags_from_name(name)
                     fcases.append("((%s, %s, %s, %s), %s)" % (*("true" if x else "false" for x in fl), row))
